@@ -6,25 +6,88 @@ loop by loop, see Tetl/C01/Model.lean) returns `.ok` — no read or write outsid
 no capacity overflow, no truncation of the narrow size field, no exhausted loop bound — and yields
 exactly the contents, iterator offset, count, pointer and comparison results of the list semantics
 in Tetl/C01/Spec.lean.  Whether a history is valid is decided from the spec state (`Spec.validHist`), not by
-running the model; that the model never fails is a conclusion.  Not covered by a theorem, by the nature of the
-model (objects are separate immutable lists, aliasing cannot be expressed): "a copy is independent of its
-source" — that clause is observed by the harness (copy, change the source, change the copy, dump both); the two
-`…_structural` statements at the end only record what the representation gives for free.  inplace_vector: only
+running the model; that the model never fails is a conclusion.  "A copy is independent of its source" is stated over
+interleaved histories (`copy_independent`, `interleave_projection`, `interleave_ok`): a theorem about the model's `step`
+(whose objects are separate lists) — that the C++ objects own their storage is observed by the harness on the same
+interleaved histories.  The observers are model functions of their own (`observers_refine…`), the size type is the
+chain extracted from the header (`size_fits`, `size_type_minimal_partial`), `remove_if`'s element move assignment is
+modelled (`eraseIf_refines` for every element kind), and what a moved-from object holds is stated by `moved_from_…`.
+inplace_vector: only
 the members etl::inplace_vector has (`supports .ipv`); the rest of std::inplace_vector's interface is the known
 finding F-C01-inplace-vector-missing-members (`ipv_step_partial`, `ipv_missing_counterexample`).
 Helper lemmas live in Lemmas / Rotate / Members* / System / History / Refine*.
 -/
-import TetlProofs.C01.Refine2
+import TetlProofs.C01.Independence
+import TetlProofs.C01.Observe
 namespace Tetl.C01.Props
 open Tetl Tetl.C01
 
-/-! ## the size type -/
+/-! ## the size type
 
-/-- `smallest_size_t<Capacity>` (the threshold chain of smallest_size_t.hpp) can hold every size up
-    to the capacity — in particular on both sides of the 254/255/256 boundary -/
+`smallestBits` is not a hand-written threshold list: it evaluates `GenSize.chain`, the `conditional_t` chain that
+gen/sizetype.py extracts from `_type_traits/smallest_size_t.hpp` of the tree under check on every run. -/
+
+/-- every link of the extracted chain is sound (its condition implies that the selected type can hold `N`), and the
+    fall-back type has 64 bits -/
+theorem size_type_chain_sound : GenSize.chain.all Link.sound = true ∧ GenSize.fallback.bits = 64 := genChain_sound
+
+/-- `smallest_size_t<Capacity>` can hold every size up to the capacity — in particular on both sides of the
+    254/255/256 boundary.  Proved from `size_type_chain_sound` by `pick_fits`, which holds for any sound chain. -/
 theorem size_fits (cap : Nat) (h : cap < 2 ^ 64) : cap < 2 ^ smallestBits cap := smallestBits_fits cap h
 
 example : (254 : Nat) < 2 ^ smallestBits 254 ∧ smallestBits 254 = 8 ∧ smallestBits 255 = 16 := by decide
+
+/-- closed form of the extracted chain, for the header as it is -/
+theorem size_type_closed (n : Nat) :
+    smallestBits n = if n < 255 then 8 else if n < 65535 then 16 else if n < 4294967295 then 32 else 64 :=
+  smallestBits_closed n
+
+/-- `Spec.minBits` is the smallest of the widths 8/16/32/64 that can hold `n` -/
+theorem minBits_spec (n : Nat) (h : n < 2 ^ 64) :
+    n < 2 ^ Spec.minBits n ∧ ∀ w ∈ [8, 16, 32, 64], n < 2 ^ w → Spec.minBits n ≤ w := by
+  unfold Spec.minBits
+  refine ⟨?_, ?_⟩
+  · repeat' split
+    all_goals omega
+  · intro w hw hlt
+    simp only [List.mem_cons, List.mem_nil_iff, or_false] at hw
+    rcases hw with rfl | rfl | rfl | rfl <;> (repeat' split) <;> omega
+
+/-- **the selected type is the smallest that fits — except exactly at the three thresholds** (known finding
+    F-C01-size-type-not-smallest-at-threshold): the chain tests `N < max(T)` where `N <= max(T)` would do. -/
+theorem size_type_minimal_partial (cap : Nat) (hcls : ¬ (cap = 255 ∨ cap = 65535 ∨ cap = 4294967295)) :
+    smallestBits cap = Spec.minBits cap := by
+  rw [smallestBits_closed]
+  unfold Spec.minBits
+  repeat' split
+  all_goals omega
+
+example : ¬ ((254 : Nat) = 255 ∨ (254 : Nat) = 65535 ∨ (254 : Nat) = 4294967295) := by decide
+
+/-- the excluded class contains failing inputs: a capacity of 255 (65535) fits 8 (16) bits, 16 (32) are selected -/
+theorem size_type_minimal_counterexample :
+    smallestBits 255 = 16 ∧ Spec.minBits 255 = 8 ∧ (255 : Nat) < 2 ^ 8
+      ∧ smallestBits 65535 = 32 ∧ Spec.minBits 65535 = 16 := by decide
+
+/-- the storage selection of `static_vector` and the uses of the size type, as extracted from the headers, are the ones
+    the model and the harness assume: zero storage for capacity 0, the `array` storage for trivial `T` (element kind
+    `triv` = `int`), raw bytes otherwise (kinds `nt`, `hd`); the size type is `smallest_size_t<Capacity>` — the
+    capacity itself is the argument — in both storages and in inplace_vector -/
+theorem storage_selection_as_modelled :
+    GenSize.storageSelect = [("Capacity == 0", "static_vector_zero_storage<T>"),
+                             ("is_trivial_v<T>", "static_vector_trivial_storage<T, Capacity>")]
+      ∧ GenSize.storageElse = "static_vector_non_trivial_storage<T, Capacity>"
+      ∧ GenSize.sizeTypeUsers.all (fun u => u.2.2 == "Capacity") = true
+      ∧ GenSize.sizeTypeUsers.map (fun u => u.1)
+          = ["_vector/static_vector.hpp", "_vector/static_vector.hpp", "_inplace_vector/inplace_vector.hpp"]
+      ∧ GenSize.paramType = "unsigned long long" := by decide
+
+/-- the other capacity-dependent layout switch of the library (`basic_inplace_string::layout_type`, modelled by C04
+    as `isTiny cap = cap < 16`), as extracted from the header: recorded here because it comes out of the same
+    extractor; C04's model itself is hand-written -/
+theorem string_layout_switch_as_extracted :
+    GenSize.stringLayoutSelect = [("(Capacity < 16)", "tiny_layout")] ∧ GenSize.stringLayoutElse = "normal_layout" := by
+  decide
 
 /-- hence no size update of a vector within its capacity is ever truncated or rejected -/
 theorem setSize_never_truncates (cap n : Nat) (hc : cap < 2 ^ 64) (hn : n ≤ cap) : setSize cap n = .ok () :=
@@ -69,10 +132,23 @@ example : eraseRange 4 [1, 2, 3, 4] 1 3 = .ok ([1, 4], 1) := by decide
 
 /-- `erase_if` (find_if + the remove_if loop + erase of the tail) keeps exactly the elements that do not
     satisfy the predicate, in order, and returns how many were removed -/
-theorem eraseIf_refines (cap : Nat) (d : V) (p : Nat → Bool) (hc : cap < 2 ^ 64) (hcap : d.length ≤ cap) :
-    eraseIf cap d p = .ok (d.filter (fun v => !p v), d.countP p) := eraseIf_eq d p hc hcap
+theorem eraseIf_refines (cap : Nat) (k : Kind) (d : V) (p : Nat → Bool) (hc : cap < 2 ^ 64) (hcap : d.length ≤ cap) :
+    eraseIf cap k d p = .ok (d.filter (fun v => !p v), d.countP p) := eraseIf_eq k d p hc hcap
 
-example : eraseIf 5 [1, 2, 3, 4, 5] (modPred 2 1) = .ok ([2, 4], 3) := by decide
+example : eraseIf 5 .hd [1, 2, 3, 4, 5] (modPred 2 1) = .ok ([2, 4], 3) := by decide
+
+/-- in particular for handles (kind `hd`: a move assignment to itself would empty the element): every kept element
+    keeps its value, so `remove_if` never move-assigns an element to itself — like std::erase_if, which runs
+    `find_if` first -/
+theorem eraseIf_keeps_handles (cap : Nat) (d : V) (p : Nat → Bool) (hc : cap < 2 ^ 64) (hcap : d.length ≤ cap) :
+    ∃ r, eraseIf cap .hd d p = .ok r ∧ r.1 = d.filter (fun v => !p v) ∧ ∀ x ∈ r.1, x ∈ d :=
+  ⟨_, eraseIf_eq .hd d p hc hcap, rfl, fun _ hx => (List.mem_filter.mp hx).1⟩
+
+-- sensitivity (test on one sample): the textbook single loop without the leading find_if (seeded change
+-- C01-remove-if-self-move) empties the kept handles in front of the first removed element; tetl's loop does not
+example : naiveRemove .hd (modPred 2 1) [4, 6, 1, 8] 0 0 4 = .ok ([EMPTIED, EMPTIED, 8, EMPTIED], 3)
+    ∧ removeIf .hd (modPred 2 1) [4, 6, 1, 8] = .ok ([4, 6, 8, EMPTIED], 3)
+    ∧ naiveRemove .nt (modPred 2 1) [4, 6, 1, 8] 0 0 4 = .ok ([4, 6, 8, MOVED], 3) := by decide
 
 /-- the six relational operators as tetl derives them from `equal` and `lexicographical_compare`
     are `=`, `≠`, and the lexicographic `<`, `≤`, `>`, `≥` -/
@@ -224,72 +300,149 @@ example : Spec.validHist .ipv (Spec.SSys.init 1) [(0, .tryPush 0 5), (0, .tryPus
 example : Spec.validHist .sv (Spec.SSys.init 3) [(0, .push 0 1), (1, .moveCtor 0), (0, .pop)] = false := by decide
 example : validRun (Sys.init .sv 3 .nt) [(0, .push 0 1), (1, .moveCtor 0), (0, .pop)] = true := by decide
 
-/-! ## structural facts of the model (no evidence for "a copy is independent of its source")
+/-! ## frame facts of the model (building blocks of the independence theorems below)
 
 The model keeps the four objects as four separate immutable lists; `Sys.setObj k` replaces entry `k`.
-Sharing of storage between a copy and its source cannot be expressed in it, so the two statements below
-hold for *any* step function of this shape — they say that the model has no cross-object writes other
-than the ones spelled out in `step`, not that the C++ copy constructor makes a deep copy.  The
-independence clause of the property is checked on the real code by the harness (copy; change the source;
-change the copy; all four objects are dumped after every line). -/
+Sharing of storage between a copy and its source cannot be expressed in it, so the two statements below say that
+`step` has no cross-object writes other than the ones spelled out in it, not that the C++ copy constructor makes a
+deep copy.  On the real code the clause is checked by the harness (copy; change the source; change the copy,
+interleaved; `data()` lies inside the object; all four objects are dumped after every line). -/
 
 /-- (structural) a single-object operation of the model writes object `k` only -/
 theorem unary_frame_structural (s s' : Sys) (k : Nat) (op : Op) (o : Out) (hb : isBinary op = none)
-    (h : step s k op = .ok (s', o)) (i : Nat) (hi : i ≠ k) : s'.objs[i]? = s.objs[i]? := by
-  rw [step_unary s k op hb] at h
-  split at h
-  · cases h
-  · cases h1 : rd s.objs k with
-    | error e => rw [h1] at h; cases h
-    | ok d =>
-      rw [h1] at h
-      simp only [ok_bind] at h
-      have fin : ∀ (r : V × Out), (Except.ok (s.setObj k r.1, r.2) : Except Err (Sys × Out)) = .ok (s', o) →
-          s'.objs[i]? = s.objs[i]? := by
-        intro r hr
-        injection hr with hr
-        injection hr with h3 _
-        subst h3
-        simp only [Sys.setObj, List.getElem?_set]
-        rw [if_neg (fun e => hi e.symm)]
-      by_cases ht : s.ty = .ipv
-      · rw [if_pos ht] at h
-        cases h2 : step1Ipv s.cap op d with
-        | error e => rw [h2] at h; cases h
-        | ok r => rw [h2] at h; exact fin r h
-      · rw [if_neg ht] at h
-        cases h2 : step1 s.cap op d with
-        | error e => rw [h2] at h; cases h
-        | ok r => rw [h2] at h; exact fin r h
+    (h : step s k op = .ok (s', o)) (i : Nat) (hi : i ≠ k) : s'.objs[i]? = s.objs[i]? :=
+  unary_frame s s' k op o hb h i hi
 
 /-- copy construction never fails and gives object `k` the value of object `j` (this part has content: the
     copy constructor is `insert(begin(), other.begin(), other.end())` / `uninitialized_copy`); that `j` and
     every other object stay as they were is structural, see above -/
 theorem copy_value_frame_structural (s : Sys) (k j : Nat) (hinv : Inv s) (hv : valid s k (.copyCtor j) = true) :
     ∃ s', step s k (.copyCtor j) = .ok (s', .unit) ∧ s'.objs[k]? = s.objs[j]?
-      ∧ ∀ i, i ≠ k → s'.objs[i]? = s.objs[i]? := by
-  have hv' := hv
-  simp only [valid, Bool.and_eq_true, decide_eq_true_eq, bne_iff_ne, ne_eq] at hv'
-  obtain ⟨⟨hs, hk⟩, hj, hjk⟩ := hv'
-  obtain ⟨d, hd⟩ := getElem?_of_lt hk
-  obtain ⟨o, ho⟩ := getElem?_of_lt hj
-  have hocap := hinv.get ho
-  have hctor : (if s.ty = .ipv then ipvCopyCtor s.cap s.kind o else copyCtor s.cap o) = .ok o := by
-    split
-    · exact ipvCopyCtor_eq s.kind o hocap
-    · exact copyCtor_eq o hinv.1 hocap
-  refine ⟨s.setObj k o, ?_, ?_, ?_⟩
-  · simp only [step, hs, Bool.not_true, Bool.false_eq_true, if_false, if_neg hjk, rd_of_get ho, rd_of_get hd,
-      ok_bind]
-    by_cases ht : s.ty = .ipv
-    · rw [if_pos ht] at hctor ⊢; rw [hctor]; rfl
-    · rw [if_neg ht] at hctor ⊢; rw [hctor]; rfl
-  · simp [Sys.setObj, hk, ho]
-  · intro i hi
-    simp only [Sys.setObj, List.getElem?_set]
-    rw [if_neg (fun e => hi e.symm)]
+      ∧ ∀ i, i ≠ k → s'.objs[i]? = s.objs[i]? := copy_value_frame s k j hinv hv
 
 example : valid ((Sys.init .sv 4 .nt).setObj 1 [1, 2, 3]) 0 (.copyCtor 1) = true := by decide
+
+/-! ## a copy is independent of its source
+
+Stated over interleaved histories: after the copy, any later history of single-object operations — addressed to
+the source, to the copy, to the other objects, in any interleaving — gives the copy exactly the contents and the
+results its *own* operations produce when run alone from the copied value, and gives the source exactly what its own
+operations produce from the state before the copy was made.  This is a theorem about `step` / `run` (it would be
+false for a step function in which an operation on one object wrote another one); that the C++ objects really own
+their storage is what the harness observes on the same interleaved histories (`@inl`: `data()` lies inside the
+object; all four objects are dumped after every line). -/
+
+/-- the projection to object `k` of any interleaved history of single-object operations equals `k`'s own history run
+    alone: same results, same final contents; and `k`'s own history touches no other object -/
+theorem interleave_projection (k : Nat) (ops : List (Nat × Op)) (s s' : Sys) (outs : List Out)
+    (hun : allUnary ops = true) (hrun : run s ops = .ok (s', outs)) :
+    ∃ s'', run s (ownOps k ops) = .ok (s'', ownOuts k ops outs) ∧ s''.objs[k]? = s'.objs[k]?
+      ∧ ∀ i, i ≠ k → s''.objs[i]? = s.objs[i]? :=
+  Tetl.C01.interleave_projection k ops s s' outs hun hrun
+
+/-- conversely, if every object's own history succeeds alone, every interleaving of them succeeds -/
+theorem interleave_ok (s : Sys) (ops : List (Nat × Op)) (hun : allUnary ops = true)
+    (h : ∀ k, ∃ r, run s (ownOps k ops) = .ok r) : ∃ r, run s ops = .ok r :=
+  Tetl.C01.interleave_ok s ops hun h
+
+/-- **a copy is independent of its source, and the source of its copy**: object `k` copy-constructed from `j`,
+    then any interleaved history `ops` of single-object operations -/
+theorem copy_independent (s s1 s' : Sys) (k j : Nat) (ops : List (Nat × Op)) (outs : List Out)
+    (hcopy : step s k (.copyCtor j) = .ok (s1, .unit)) (hun : allUnary ops = true)
+    (hrun : run s1 ops = .ok (s', outs)) :
+    (∃ sk, run s1 (ownOps k ops) = .ok (sk, ownOuts k ops outs) ∧ sk.objs[k]? = s'.objs[k]?
+        ∧ sk.objs[j]? = s.objs[j]?)
+    ∧ (∃ sj, run s (ownOps j ops) = .ok (sj, ownOuts j ops outs) ∧ sj.objs[j]? = s'.objs[j]?) :=
+  Tetl.C01.copy_independent s s1 s' k j ops outs hcopy hun hrun
+
+-- non-vacuity (`exStart`: object 1 = [1, 2]; `exOps`: source and copy changed alternately, see Independence.lean):
+-- the hypotheses of `copy_independent` hold and the two objects end up different
+example : allUnary exOps = true ∧
+    (match step exStart 0 (.copyCtor 1) with
+     | .ok (s1, _) => (match run s1 (exOps.take 4) with
+        | .ok (s', outs) => decide (s'.objs = [[9, 1], [2, 7], [], []] ∧ outs = [.unit, .unit, .it 0, .it 0])
+        | .error _ => false)
+     | .error _ => false) = true := by decide
+
+/-! ## the observers
+
+The observers are model functions of their own (Tetl/C01/Observe.lean: `size`, `empty`, `full`, `capacity`, `max_size`,
+`begin()..end()` as a forward walk over offsets, `rbegin()..rend()` through `reverse_iterator`'s `*--tmp`, `data()[i]`,
+`operator[]` / `front` / `back` through `detail::index` and its contract check, inplace_vector's and stack's own
+versions); the driver prints every object through them. -/
+
+/-- what the observers of `static_vector` return, in terms of the abstract list -/
+theorem observers_refine (cap : Nat) (d : V) :
+    size d = d.length ∧ (empty d = true ↔ d = []) ∧ (full cap d = true ↔ d.length = cap)
+      ∧ capacity cap = cap ∧ maxSize cap = cap
+      ∧ iterate d = .ok d ∧ riterate d = .ok d.reverse
+      ∧ (∀ i (h : i < d.length), index d i = .ok d[i] ∧ dataAt d i = .ok d[i])
+      ∧ (∀ h : d ≠ [], svFront d = .ok (d.head h) ∧ svBack d = .ok (d.getLast h)) :=
+  Tetl.C01.observers_refine cap d
+
+/-- … of `inplace_vector` and `stack`; an index `≥ size()` stops at the contract check, nothing is read -/
+theorem observers_refine_ipv_stk (d : V) :
+    (∀ i (h : i < d.length), ipvIndex d i = .ok d[i])
+      ∧ (∀ i, d.length ≤ i → ∃ s, ipvIndex d i = .error (.pre s))
+      ∧ (∀ i, d.length ≤ i → ∃ s, index d i = .error (.pre s))
+      ∧ (∀ h : d ≠ [], ipvFront d = .ok (d.head h) ∧ ipvBack d = .ok (d.getLast h)
+          ∧ front d = .ok (d.head h) ∧ back d = .ok (d.getLast h) ∧ stkTop d = .ok (d.getLast h))
+      ∧ stkSize d = d.length ∧ (stkEmpty d = true ↔ d = []) :=
+  Tetl.C01.observers_refine_ipv_stk d
+
+/-- the capacity-0 storages answer with constants (`size() = 0`, `empty()`, `full()`): the same as the general
+    observers on the only state such a vector has -/
+theorem observers_zero_capacity (d : V) (hd : d.length ≤ 0) :
+    size d = zeroSize ∧ capacity 0 = zeroCapacity ∧ maxSize 0 = zeroCapacity
+      ∧ empty d = zeroEmpty ∧ full 0 d = zeroFull := zero_storage_agrees d hd
+
+example : iterate [4, 5, 6] = .ok [4, 5, 6] ∧ riterate [4, 5, 6] = .ok [6, 5, 4] ∧ svFront [4, 5, 6] = .ok 4
+    ∧ svBack [4, 5, 6] = .ok 6 ∧ full 3 [4, 5, 6] = true ∧ empty [4, 5, 6] = false := by decide
+
+/-! ## moved-from objects
+
+"A moved-from source stays valid": the standard leaves its value unspecified (spec `none`); the model says what
+etl leaves there, and the harness compares that with the implementation on every line.  static_vector / stack keep
+the size, every element is in the moved-from state of its type (`mvd`: an `int` keeps its value, `NT` shows
+`MOVED`, a handle `EMPTIED`); inplace_vector of a non-trivial type is emptied (`other._size = 0`), of a trivial type
+is untouched (defaulted move).  In every case the object satisfies `size ≤ capacity` again (`Inv`, part of
+`step_refines`) and takes every operation whose precondition does not mention its contents (`Spec.stateFree`). -/
+
+/-- move construction / move assignment of static_vector: the destination gets exactly the old contents of the
+    source; the source keeps its size, its elements are moved-from -/
+theorem moved_from_static_vector (cap : Nat) (k : Kind) (d o : V) (hc : cap < 2 ^ 64) (hn : o.length ≤ cap) :
+    moveCtor cap k o = .ok (o, o.map (mvd k)) ∧ moveAssign cap k d o = .ok (o, o.map (mvd k))
+      ∧ (o.map (mvd k)).length = o.length ∧ (k = .triv → o.map (mvd k) = o) := by
+  refine ⟨moveCtor_eq k o hc hn, moveAssign_eq k d o hc hn, by simp, ?_⟩
+  intro hk; subst hk
+  show o.map (fun x => x) = o
+  simp
+
+/-- `v = etl::move(v)` leaves a static_vector empty (the standard: valid but unspecified) -/
+theorem moved_from_self (cap : Nat) (d : V) (hc : cap < 2 ^ 64) : moveAssignSelf cap d = .ok [] :=
+  moveAssignSelf_eq d hc
+
+/-- move construction of inplace_vector: trivial `T` — the source is untouched; otherwise the source is empty -/
+theorem moved_from_inplace_vector (cap : Nat) (k : Kind) (o : V) (h : o.length ≤ cap) :
+    ipvMoveCtor cap k o = .ok (o, match k with | .triv => o | _ => []) := ipvMoveCtor_eq k o h
+
+/-- a moved-from object of any of the three types takes every operation without a precondition on its contents:
+    on the spec side it is unspecified (`none`), the step is valid by the standard's book-keeping, hence (by
+    `step_refines_spec`) the model executes it without error and ends in the specified value -/
+theorem moved_from_usable (s : Sys) (sp : Spec.SSys) (k : Nat) (op : Op) (hinv : Inv s) (hrel : Rel s sp)
+    (hk : k < sp.objs.length) (hmoved : Spec.getObj sp k = none) (hsup : supports s.ty op = true)
+    (hb : isBinary op = none) (hfree : Spec.stateFree op = true) (hpre : valid1 sp.cap op [] = true) :
+    ∃ s' o, step s k op = .ok (s', o) ∧ Inv s' ∧ Rel s' (Spec.step sp k op).1 := by
+  have hv : Spec.valid s.ty sp k op = true := by
+    simp only [Spec.valid, hsup, Bool.true_and]
+    rw [specValidPre_unary sp k op hb]
+    simp [hk, hmoved, hfree, hpre]
+  obtain ⟨s', o, h1, h2, _, _, _, _, h7, _⟩ := step_refines_spec s sp k op hinv hrel hv
+  exact ⟨s', o, h1, h2, h7⟩
+
+example : moveCtor 3 .nt [1, 2] = .ok ([1, 2], [MOVED, MOVED]) ∧ moveCtor 3 .hd [1, 2] = .ok ([1, 2], [EMPTIED, EMPTIED])
+    ∧ moveCtor 3 .triv [1, 2] = .ok ([1, 2], [1, 2]) ∧ ipvMoveCtor 3 .nt [1, 2] = .ok ([1, 2], [])
+    ∧ ipvMoveCtor 3 .triv [1, 2] = .ok ([1, 2], [1, 2]) := by decide
 
 /-! ## known findings -/
 
